@@ -12,7 +12,7 @@ OBLIGATIONS = ['Cvise.C13.parse_eq_spec', 'Cvise.C13.parse_rejects', 'Cvise.C13.
                'Cvise.C13.shipped_wellformed', 'Cvise.C13.shipped', 'Cvise.C13.shipped_eager']
 
 CATS = ['first', 'main', 'last']
-VALID_OPTS = [o.value for o in AbstractPass.Option]
+VALID_OPTS = [o.name for o in AbstractPass.Option]        # the strings a pass-group file uses
 
 
 def enc(s):
@@ -45,7 +45,7 @@ def model_line(d, active, removed, not_c, renaming, eager):
 
 
 def real_parse(d, active, removed, not_c, renaming):
-    opts = {AbstractPass.Option(a) for a in active}
+    opts = {AbstractPass.Option[a] for a in active}
     try:
         g = CVise.parse_pass_group_dict(d, opts, None, ','.join(removed) if removed else None, None, None, not_c, renaming)
     except CViseError as e:
